@@ -49,9 +49,12 @@ def _fine_install(zmethod):
         return
     mon = sys.monitoring
     monitor.install()
-    mon.use_tool_id(FINE_TOOL, "knee-verif-c10")
-    mon.register_callback(FINE_TOOL, mon.events.JUMP, _fine_cb)
-    mon.set_local_events(FINE_TOOL, code, mon.events.JUMP)
+    try:
+        mon.use_tool_id(FINE_TOOL, "knee-verif-c10")
+        mon.register_callback(FINE_TOOL, mon.events.JUMP, _fine_cb)
+        mon.set_local_events(FINE_TOOL, code, mon.events.JUMP)
+    except Exception:            # no fine-grained count: steps stay 0, hangs fall to monitor's overall budget
+        return
     _fine["code"] = code
     _fine["header"] = min(targets)
 
